@@ -16,7 +16,7 @@ import (
 // real LoadBlob, other copies are real duplicates stored in a second pack.
 func c43Repo(t *testing.T, res *kit.Result, emit func(rec c43Rec, sig string, nontrivial bool), r *rand.Rand) {
 	ctx := context.Background()
-	n := kit.Pick(40, 500)
+	n := kit.Pick(90, 600)
 	for i := 0; i < n; i++ {
 		store := kit.NewStore()
 		repo, _ := TestRepositoryWithBackend(t, store.Backend("p"), 0, Options{})
